@@ -263,6 +263,7 @@ class TensorGen:
         self.ndarray_data = ndarray_data
         self.count = 0
         self.maxdeg = 2         # degree bound of the integer polynomials (polyonly)
+        self.repeat = 0.0       # probability that a layer re-uses an EARLIER box (the same object)
 
     def entry(self, p_sym):
         r = self.rng
@@ -332,6 +333,16 @@ class TensorGen:
                 b = Spider(1, k, Dim(scan[off]))
                 new = [scan[off]] * k
                 spec = dict(kind="spider")
+            elif self.repeat and kind == "box" and self._reusable(layers, scan) \
+                    and r.random() < self.repeat:
+                # the same box object again, at any place where its domain fits (other offset,
+                # other depth, other boxes in between)
+                j, off = r.choice(self._reusable(layers, scan))
+                b, spec = layers[j]["_box"], dict(layers[j])
+                k = len(spec["dom"])
+                left, right = scan[:off], scan[off + k:]
+                new = list(spec["cod"])
+                spec["repeated"] = True
             else:
                 off = r.randint(0, n)
                 k = r.randint(0, min(2, n - off))
@@ -344,12 +355,30 @@ class TensorGen:
                         cod.append(c)
                 b, spec = self.box(bdom, cod, symbolic=r.random() < p_symbolic)
                 spec["kind"] = "box"
+                spec["_box"] = b
                 new = cod
             d = d >> Id(Dim(*left)) @ b @ Id(Dim(*right))
             spec.update(left=list(left), right=list(right))
             layers.append(spec)
             scan = left + new + right
+        for l in layers:
+            l.pop("_box", None)
         return d, dict(dom=dom, layers=layers)
+
+    def _reusable(self, layers, scan):
+        """(index of an earlier box layer, offset) pairs at which that box fits the current wires
+        without exceeding `maxdim`."""
+        out = []
+        for j, l in enumerate(layers):
+            if l.get("kind") != "box" or "_box" not in l:
+                continue
+            k = len(l["dom"])
+            for off in range(len(scan) - k + 1):
+                if scan[off:off + k] == l["dom"]:
+                    rest = scan[:off] + scan[off + k:]
+                    if int(np.prod(rest + l["cod"])) <= self.maxdim:
+                        out.append((j, off))
+        return out
 
 
 ROT1 = ["Rx", "Ry", "Rz"]
@@ -358,7 +387,10 @@ ROT2 = ["CRz", "CRx", "CU1"]
 
 class CircuitGen:
     def __init__(self, rng, syms, mixed=False, max_qubits=2, rot2=True, classical=True,
-                 scalars=True, bits=0.15, ket=0.6):
+                 scalars=True, bits=0.15, ket=0.6, repeat=0.0):
+        # repeat: probability that a parametrised gate is an EARLIER one again (the same object:
+        # equal class and phase expression) at a random position
+        self.repeat = repeat
         self.rng, self.syms, self.mixed, self.max_qubits = rng, syms, mixed, max_qubits
         self.eg = ExprGen(rng, syms)
         self.rot2, self.classical, self.scalars, self.bits = rot2, classical, scalars, bits
@@ -379,6 +411,7 @@ class CircuitGen:
             c = Id(qubit ** nq)
         wires = ["q"] * nq
         used = []
+        pool = dict(rot1=[], rot2=[])
 
         def layer(off, box, new):
             nonlocal c, wires
@@ -414,10 +447,18 @@ class CircuitGen:
                 break
             k = r.choice(kinds)
             used.append(k)
-            if k == "rot1":
-                layer(r.choice(qs), rots[r.choice(ROT1)](phase()), ["q"])
+            if self.repeat and k in ("rot1", "rot2") and pool[k] and r.random() < self.repeat:
+                g = r.choice(pool[k])
+                used[-1] = k + ":repeated"
+                layer(r.choice(qs if k == "rot1" else qq), g, ["q"] * len(g.dom))
+            elif k == "rot1":
+                g = rots[r.choice(ROT1)](phase())
+                pool[k].append(g)
+                layer(r.choice(qs), g, ["q"])
             elif k == "rot2":
-                layer(r.choice(qq), rots[r.choice(ROT2)](phase()), ["q", "q"])
+                g = rots[r.choice(ROT2)](phase())
+                pool[k].append(g)
+                layer(r.choice(qq), g, ["q", "q"])
             elif k == "fixed1":
                 layer(r.choice(qs), r.choice([H, X, Z]), ["q"])
             elif k == "fixed2":
@@ -457,6 +498,78 @@ class CircuitGen:
             nq = len(wires)
             c = c >> Bra(*[r.choice([0, 1]) for _ in range(nq)])
         return c, used
+
+
+def repeated_gate_circuit(rng, syms, two_qubit_rotations=True, max_qubits=3, small=False):
+    """A circuit in which the SAME parametrised gate (one object: equal class, equal phase
+    expression) occurs two or three times, on different wires and/or separated by gates it does
+    not commute with, among other parametrised gates in the same symbols.
+    Returns (circuit, description)."""
+    from discopy.quantum import Ket, H, X, CX, Rx, Ry, Rz, CRz, CRx, CU1, qubit
+    from discopy.quantum.circuit import Id
+    r = rng
+    eg = ExprGen(r, syms)
+    rots1 = dict(Rx=Rx, Ry=Ry, Rz=Rz)
+    rots2 = dict(CRz=CRz, CRx=CRx, CU1=CU1)
+    if small:
+        # CQ evaluation + symbolic differentiation of the doubled map is costly: one symbol in the
+        # repeated phase, separators without symbols or with one
+        ph = r.choice(syms) * r.choice([1, 1, 2, sympy.Rational(1, 2)])
+    else:
+        ph = r.choice([lambda: r.choice(syms), eg.affine, eg.poly, lambda: r.choice(syms) * r.choice(syms)])()
+    if not getattr(ph, "free_symbols", None):
+        ph = ph + r.choice(syms)
+    shapes = ["same_wire", "two_wires", "two_wires_cx", "three_times"]
+    if two_qubit_rotations and max_qubits >= 2:
+        shapes += ["rot2_sep", "rot2_shifted"] if max_qubits >= 3 else ["rot2_sep"]
+    if max_qubits < 2:
+        shapes = ["same_wire", "three_times_1q"]
+    if small:
+        shapes = [x for x in shapes if x not in ("three_times", "three_times_1q")]
+    shape = r.choice(shapes)
+    name = r.choice(sorted(rots1))
+    g = rots1[name](ph)
+    other = rots1[r.choice([n for n in sorted(rots1) if n != name])]   # does not commute with g
+
+    def sep():
+        if small:
+            return r.choice([H, other(sympy.Rational(1, 4)), other(r.choice(syms))])
+        return other(eg.phase()) if r.random() < 0.7 else H
+
+    def on(n, i, box):
+        return Id(qubit ** i) @ box @ Id(qubit ** (n - i - len(box.dom)))
+    if shape == "same_wire":
+        n = 1
+        c = g >> sep() >> g
+    elif shape == "three_times_1q":
+        n = 1
+        c = g >> sep() >> g >> sep() >> g
+    elif shape == "two_wires":
+        n = 2
+        c = g @ g
+        if r.random() < 0.5:
+            c = on(2, r.randrange(2), sep()) >> c
+    elif shape == "two_wires_cx":
+        n = 2
+        c = on(2, 0, g) >> CX >> on(2, 1, g)
+    elif shape == "three_times":
+        n = 2
+        c = on(2, 0, g) >> on(2, 1, sep()) >> CX >> on(2, 1, g) >> on(2, 0, sep()) >> on(2, 0, g)
+    elif shape == "rot2_sep":
+        n = 2
+        name = r.choice(sorted(rots2))
+        g = rots2[name](ph)
+        c = g >> on(2, r.randrange(2), H if name != "CRx" or r.random() < 0.5 else Rz(eg.phase())) >> g
+    else:                                   # rot2_shifted: the same controlled rotation on wires 0,1 and 1,2
+        n = 3
+        name = r.choice(sorted(rots2))
+        g = rots2[name](ph)
+        c = on(3, 0, g) >> on(3, 1, H) >> on(3, 1, g)
+    if small or r.random() < 0.6:           # small: states only (a CQ map has 16^n entries otherwise)
+        c = Ket(*[r.choice([0, 1]) for _ in range(n)]) >> c
+    elif r.random() < 0.5:
+        c = on(n, r.randrange(n), r.choice([H, X])) >> c
+    return c, "repeat:%s:%s" % (shape, name)
 
 
 class ZXGen:
